@@ -356,7 +356,8 @@ namespace nmtools::array
                                 for (size_t i=1; i<N; i++) {
                                     result = view.op(result,tmp_res[i]);
                                 }
-                                out_data_ptr[out_offset] = result;
+                                // the output was pre-filled with the initial value (or the identity): fold into it
+                                out_data_ptr[out_offset] = view.op(out_data_ptr[out_offset],result);
                                 accum = op.set1(identity);
                             } break;
                             default:
